@@ -136,6 +136,27 @@ Theorem main_process_verbs_are_unserved :
                     "ReloadConfiguration"; "QueryCertificatesFromTheState"; "QueryHealthChecks"] = true.
 Proof. vm_compute. reflexivity. Qed.
 
+(** The table of the slots ([Server::listener_slots]) is keyed by (listener type, address): a TCP
+    and a UDP listener may share an ip:port (53/tcp + 53/udp).  Each Add*Listener files its slot
+    under its OWN type and RemoveListener looks up (remove.proxy, address) — both read from the source
+    by the translator, per function — so giving back the slot of one type never touches the slot
+    another type holds on the same address. *)
+Definition slot_key : Type := (nat * nat)%type.          (* listener type, address *)
+Definition key_eqb (a b : slot_key) : bool := Nat.eqb (fst a) (fst b) && Nat.eqb (snd a) (snd b).
+Definition file_slot (k : slot_key) (token : nat) (m : list (slot_key * nat)) := (k, token) :: m.
+Definition release_slot (k : slot_key) (m : list (slot_key * nat)) := filter (fun e => negb (key_eqb (fst e) k)) m.
+
+Theorem removing_one_type_keeps_the_other : forall m ty ty' addr addr' token,
+    ty <> ty' -> In ((ty', addr'), token) m -> In ((ty', addr'), token) (release_slot (ty, addr) m).
+Proof.
+  intros m ty ty' addr addr' token Hne Hin. unfold release_slot. apply filter_In. split; [exact Hin|].
+  unfold key_eqb. cbn [fst snd]. destruct (Nat.eqb_spec ty' ty) as [E|E]; [congruence|reflexivity].
+Qed.
+
+Example same_address_two_types :
+  release_slot (2, 53) (file_slot (3, 53) 7 (file_slot (2, 53) 6 [])) = [((3, 53), 7)].
+Proof. reflexivity. Qed.
+
 Example one_final_answer_nonvacuous :
   snd (run (fun (v : nat) _ (p : nat) => v + p) (mkW 0 3%Z 3 None true)
         [EReq (mkReq 1 "AddCluster" 5) (mkOr 0 0 1 0 (fun _ => false) true true);
